@@ -30,7 +30,7 @@ def run(ctx):
                               "single-threaded histories (the tables serialise all operations under one lock)"],
                  states=sum(r.distinct for r in results.values()), transitions=tot["edges"],
                  traces_validated_against_impl=sum(s["walks"] for s in summ.values()) + tsum["validated_traces"],
-                 exhaustive=True, cfgs={n: {"states": r.distinct, "transitions": r.generated - 1} for n, r in results.items()},
+                 exhaustive=all(s["uncovered"] == 0 for s in summ.values()), cfgs={n: {"states": r.distinct, "transitions": r.generated - 1} for n, r in results.items()},
                  replay={n: {k: s[k] for k in ("groups", "uncovered", "edges", "edges_exhibited", "steps", "walks",
                                                 "mismatches", "lkmismatches", "lookups")} for n, s in summ.items()},
                  nondeterministic_pairs=tot["nondet_groups"],
